@@ -227,15 +227,21 @@ func MergeErrors(err, other error) error {
 	}
 	e := asError(err)
 	o := asError(other)
-	if e.Name == "error" {
-		e.Name = o.Name
-	}
 
 	// Combine error lineage. We only ever put original errors into the history slice, so we
 	// don't need to worry about gaining intermediate merges.
 	//
-	// Do this before we modify ourselves, as History() may include us!
-	e.history = append(e.History(), o.History()...)
+	// Do this before we modify ourselves, as History() may include us! In that
+	// case record a copy so that the original name and message are preserved.
+	eh := e.History()
+	if len(e.history) == 0 {
+		orig := *e
+		eh = []*ServiceError{&orig}
+	}
+	e.history = append(eh, o.History()...)
+	if e.Name == "error" {
+		e.Name = o.Name
+	}
 	e.err = errors.Join(e.err, o.err)
 
 	e.Message = e.Message + "; " + o.Message
